@@ -16,6 +16,8 @@
 
 package ca
 
+import "istio.io/istio/pkg/cluster"
+
 // Accessors for the verification harness (property C09). Add-only, no behaviour change;
 // the file is compiled only with the build tag `verif`.
 
@@ -32,4 +34,22 @@ func (s *Server) VerifNodeAuthorizerSynced() bool {
 		return true
 	}
 	return s.nodeAuthorizer.component.HasSynced()
+}
+
+// VerifPodUID reports the UID of the pod ns/name as the node authorizer that is active for the
+// cluster currently sees it in its informer (ok=false: no authorizer for the cluster, or no such
+// pod). The harness polls it to know when a pod event it injected has been processed.
+func (s *Server) VerifPodUID(clusterID, ns, name string) (uid string, ok bool) {
+	if s.nodeAuthorizer == nil {
+		return "", false
+	}
+	na := s.nodeAuthorizer.component.ForCluster(cluster.ID(clusterID))
+	if na == nil {
+		return "", false
+	}
+	pod := (*na).pods.Get(name, ns)
+	if pod == nil {
+		return "", false
+	}
+	return string(pod.UID), true
 }
